@@ -497,6 +497,31 @@ def run_objects(desc):
     return out
 
 
+def isolated(fn, items):
+    """fn(item) for every item, each in its own forked child of this (fresh) interpreter: no call sees what another one left behind."""
+    res = []
+    for it in items:
+        r, w = os.pipe()
+        pid = os.fork()
+        if pid == 0:
+            try:
+                os.close(r)
+                try:
+                    data = json.dumps(jsonable(fn(it)))
+                except BaseException as e:     # noqa: the child must report, never unwind into the parent's stack
+                    data = json.dumps(['CHILD-EXC', type(e).__name__, str(e)[:200]])
+                with os.fdopen(w, 'w') as f:
+                    f.write(data)
+            finally:
+                os._exit(0)
+        os.close(w)
+        with os.fdopen(r) as f:
+            data = f.read()
+        os.waitpid(pid, 0)
+        res.append(json.loads(data) if data else ['CHILD-EXC', 'no output', ''])
+    return res
+
+
 PICKLE_SCRIPT = r'''
 import sys, json, base64, pickle
 sys.path.insert(0, %(verif)r)
@@ -529,12 +554,15 @@ from wcverif import fscommon as FC
 hot, pool, filler = c19.build_pool()
 sel = [d for d in list(dict.fromkeys(hot + pool[::7]))]
 order = list(range(len(sel)))
-if %(reverse)r:
+if %(reverse)r is True:
     order.reverse()
 res = {}
 with FC.built_tree(c19.TREE) as (root, _r):
-    for i in order:
-        res[i] = c19.jsonable(c19.call(sel[i], root))
+    if %(reverse)r == 'isolated':
+        res = dict(enumerate(c19.isolated(lambda d: c19.call(d, root), sel)))
+    else:
+        for i in order:
+            res[i] = c19.jsonable(c19.call(sel[i], root))
 print(json.dumps([[list(sel[i]), res[i]] for i in range(len(sel))]))
 '''
 
@@ -614,7 +642,10 @@ wcverif.bootstrap()
 from wcverif.checks import c19
 calls = json.loads(%(calls)r)
 root = %(root)r
-if %(reverse)r:
+tup = lambda d: tuple(tuple(x) if isinstance(x, list) else x for x in d)
+if %(reverse)r == 'isolated':
+    res = c19.isolated(lambda d: c19.world_call(tup(d), root), calls)
+elif %(reverse)r:
     res = [c19.jsonable(c19.world_call(tuple(tuple(x) if isinstance(x, list) else x for x in d), root)) for d in reversed(calls)][::-1]
 else:
     res = [c19.jsonable(c19.world_call(tuple(tuple(x) if isinstance(x, list) else x for x in d), root)) for d in calls]
@@ -745,7 +776,7 @@ def run_world(desc):
                     if os.environ.get('HOME', '').startswith(self.root):
                         # (b) fresh interpreters on the final world
                         warm = [jsonable(world_call(d, self.root)) for d in W_CALLS]
-                        for reverse in (False, True):
+                        for reverse in (False, True, 'isolated'):
                             r = subprocess.run([sys.executable, '-c', WORLD_SCRIPT % {'verif': VERIF_DIR, 'calls': json.dumps(jsonable(W_CALLS)),
                                                                                      'root': self.root, 'reverse': reverse}],
                                                capture_output=True, text=True, timeout=600, env=dict(env, HOME=os.environ['HOME']))
@@ -805,20 +836,22 @@ def run_world(desc):
                         world_apply(root, op)
                         hist.append(list(op))
                     warm = [jsonable(world_call(d, root)) for d in W_CALLS]
-                    r = subprocess.run([sys.executable, '-c', WORLD_SCRIPT % {'verif': VERIF_DIR, 'calls': json.dumps(jsonable(W_CALLS)), 'root': root,
-                                                                             'reverse': False}],
-                                       capture_output=True, text=True, timeout=600, env=dict(env, HOME=os.environ['HOME']))
-                    if r.returncode != 0:
-                        raise HarnessError('fresh interpreter failed: ' + r.stderr[-500:])
-                    fresh = json.loads([l for l in r.stdout.splitlines() if l.startswith('[')][-1])
-                    stats['fresh'] += 1
-                    changed = 0
-                    for d, w, f in zip(W_CALLS, warm, fresh):
-                        out.evaluations += 1
-                        if w != f:
-                            out.violation({'world': hist, 'script': label, 'call': jsonable(d), 'got': w, 'want': f,
-                                           'problem': 'answer after a change of the world differs from a fresh interpreter looking at the same world'},
-                                          size=len(hist), bucket=('world-script', label))
+                    # two fresh interpreters, the second one asking in the opposite order: a process-wide memo that is not keyed on
+                    # everything the answer depends on shows as a difference between the two orders
+                    for reverse in (False, True, 'isolated'):
+                        r = subprocess.run([sys.executable, '-c', WORLD_SCRIPT % {'verif': VERIF_DIR, 'calls': json.dumps(jsonable(W_CALLS)), 'root': root,
+                                                                                 'reverse': reverse}],
+                                           capture_output=True, text=True, timeout=600, env=dict(env, HOME=os.environ['HOME']))
+                        if r.returncode != 0:
+                            raise HarnessError('fresh interpreter failed: ' + r.stderr[-500:])
+                        fresh = json.loads([l for l in r.stdout.splitlines() if l.startswith('[')][-1])
+                        stats['fresh'] += 1
+                        for d, w, f in zip(W_CALLS, warm, fresh):
+                            out.evaluations += 1
+                            if w != f:
+                                out.violation({'world': hist, 'script': label, 'call': jsonable(d), 'got': w, 'want': f, 'reverse_order': reverse,
+                                               'problem': 'answer after a change of the world differs from a fresh interpreter looking at the same world'},
+                                              size=len(hist), bucket=('world-script', label))
                     out.nontrivial(('world-script', label))
                     import shutil
                     shutil.rmtree(root, ignore_errors=True)
@@ -846,14 +879,19 @@ def run_fresh(desc):
         here = [jsonable(call(d, root)) for d in sel]
     env = dict(os.environ, PYTHONHASHSEED='1', VERIF_REPO=os.environ.get('VERIF_REPO', '/repo'))
     runs = []
-    for reverse in (False, True):
+    for reverse in (False, True, 'isolated'):
         r = subprocess.run([sys.executable, '-c', FRESH_SCRIPT % {'verif': VERIF_DIR, 'reverse': reverse}], capture_output=True, text=True,
                            timeout=600, env=env)
         if r.returncode != 0:
             raise HarnessError('fresh interpreter failed: ' + r.stderr[-500:])
         line = [l for l in r.stdout.splitlines() if l.startswith('[')][-1]
         runs.append(json.loads(line))
-    there, there_rev = runs
+    there, there_rev, there_iso = runs
+    for (d, v), (_d3, v3) in zip(there, there_iso):
+        out.evaluations += 1
+        if v != v3:
+            out.violation({'call': d, 'forward_order': v, 'alone': v3, 'problem': 'result differs from the same call made alone in a fresh interpreter'},
+                          bucket=('alone', d[0]))
     for (d, v), h, (_d2, v2) in zip(there, here, there_rev):
         out.evaluations += 2
         if v != h:
@@ -908,6 +946,28 @@ def replay(case):
                 clear_every_cache()
                 probe = tuple(tuple(x) if isinstance(x, list) else x for x in case['call'])
                 hist = case['world']
+                if 'script' in case or 'reverse_order' in case:
+                    # warm answer after the recorded history against a fresh interpreter asking every descriptor in the recorded order
+                    for h in hist:
+                        if h[0] == 'call-all':
+                            for d in W_CALLS:
+                                world_call(d, root)
+                        elif h[0] == 'call':
+                            world_call(tuple(tuple(x) if isinstance(x, list) else x for x in h[1]), root)
+                        elif h[0] == 'clear':
+                            clear_every_cache()
+                        else:
+                            world_apply(root, h)
+                    warm = jsonable(world_call(probe, root))
+                    env = dict(os.environ, PYTHONHASHSEED='1', VERIF_REPO=os.environ.get('VERIF_REPO', '/repo'))
+                    r = subprocess.run([sys.executable, '-c', WORLD_SCRIPT % {'verif': VERIF_DIR, 'calls': json.dumps(jsonable(W_CALLS)), 'root': root,
+                                                                             'reverse': case.get('reverse_order', False)}],
+                                       capture_output=True, text=True, timeout=600, env=env)
+                    if r.returncode != 0:
+                        raise HarnessError('fresh interpreter failed: ' + r.stderr[-500:])
+                    fresh = json.loads([l for l in r.stdout.splitlines() if l.startswith('[')][-1])
+                    want = fresh[[jsonable(d) for d in W_CALLS].index(jsonable(probe))]
+                    return warm == want, {'got': warm, 'want': want}
                 if hist and hist[-1] == ['call', case['call']]:
                     hist = hist[:-1]
                 warm, cold = world_history(root, hist, probe)
